@@ -36,9 +36,14 @@ def plan(tier, seed, profile, n_single, per_batch, n_multi, per_mbatch, ranks=(2
         single = g.generate(g.scripts(profile, stats=stats), n_single, seed)
         nb = (n_single + per_batch - 1) // per_batch
         cfgs = g.generate(g.proc_cfgs(ranks=1, tmin=1, tmax=16), nb, seed * 131 + 7)
+        if not g.SCHED_ALL:
+            stats["excluded_schedulers"] = ",".join(g.LIVELOCK_SCHEDS)
         for i in range(nb):
             batches.append((dict(cfgs[i % len(cfgs)], tq=5 if tier == "quick" else 20), single[i::nb]))
     if n_multi:
+        if not g.RANKS3:
+            stats["excluded_ranks_ge_3"] = n_multi
+            ranks = (2, 2)
         multi = g.generate(g.scripts(profile, ranks=ranks, stats=stats), n_multi, seed * 131 + 11)
         byr = {}
         for s in multi:
